@@ -96,7 +96,16 @@ func (t *Dense) SafeT(axes ...int) (retVal *Dense, err error) {
 	retVal.oe = t.oe
 	retVal.AP = transform
 	if noop {
-		// nothing was permuted: there is no transpose to undo or to materialize
+		// nothing was permuted: there is no new transpose to undo or to materialize. A transpose that is still pending on
+		// the source is pending on its copy as well (the copy has the source's permuted strides; without the record it
+		// looked contiguous and the flat kernels read its storage in the wrong order)
+		if !t.old.IsZero() {
+			t.old.CloneTo(&retVal.old)
+			if t.transposeWith != nil {
+				retVal.transposeWith = BorrowInts(len(t.transposeWith))
+				copy(retVal.transposeWith, t.transposeWith)
+			}
+		}
 		return
 	}
 	t.AP.CloneTo(&retVal.old)
